@@ -8,7 +8,7 @@
    Axioms: the standard-library real-number axioms and functional_extensionality_dep only. *)
 From Coq Require Import List Reals.
 From LNML Require Import Model.Geom Proofs.GeomP.
-From Run Require Import Gen_C12 Inst_C12.
+From Run Require Import Gen_C12 Inst_C12_wf Inst_C12.
 Import ListNotations.
 Local Open Scope R_scope.
 
@@ -117,7 +117,17 @@ Theorem C12_cell_getters_agree_with_segment : forall (s : seg R) (rest : list (s
 Proof. exact (cell_getters_agree_with_segment T Inst_C12.table_ok). Qed.
 Print Assumptions C12_cell_getters_agree_with_segment.
 
-(* the float <-> real distance is measured by the correspondence run, not proved *)
+(* the only divisors in the translated arithmetic are non-zero literals: no ZeroDivisionError, and Rdiv is never
+   used at its unspecified point *)
+Theorem C12_no_division_by_zero : forall env : list R,
+  prog_divisors_nonzero (g_length T) env /\ prog_divisors_nonzero (g_volume T) env
+  /\ prog_divisors_nonzero (g_area T) env /\ prog_divisors_nonzero (g_distance T) env.
+Proof. exact (wf_table_safe T Inst_C12_wf.table_wf). Qed.
+Print Assumptions C12_no_division_by_zero.
+
+(* PARTIAL with respect to the property text "to floating-point rounding": the statements above are exact over the
+   reals (the Python expressions read as real arithmetic); how far the binary64 evaluation of the same expressions
+   is from these values is measured on every run (<= 1e-13 relative against a 60-digit reference), not proved *)
 Theorem C12_float_rounding_partial : forall p d : pt R,
   t_length T p d = ref_length false p d /\ t_volume T p d = ref_volume false p d /\ t_area T p d = ref_area false p d.
 Proof. exact (fun p d => conj (t_length_eq T Inst_C12.table_ok p d)
